@@ -2,9 +2,9 @@ package main
 
 func init() {
 	register("C04", propMeta{
-		Explanation: "Structural necessary conditions of 'metadata filters return exactly the satisfying documents': freshness of every bitmap handed out or mutated in place below the metadata search (value-flow from New/Clone/CompareValue vs. index-owned storage); operator coverage and dispatch decided by finite-domain reachability over the 11 declared operators (categorical / numeric / local split, unsupported ⇒ error); operator → bsi.Operation table with operand provenance; universe of negations (Clone(allDocs) / Clone(existence)); Not as a fix-point-free involution; AND/OR connectives; Remove covers every container Add writes and keeps field kinds stable; numeric type sets and the rounded two-decimal conversion agree between Add and the operand side; key codec and the existence prefix match.",
-		NotDecided:  "correctness of roaring's BSI comparison on negative values (third-party, value level; observed wrong across signs, see DESIGN section 8); field names containing ':'.",
-		Assumptions: []string{"roaring.New/BitmapOf/Clone/CompareValue return fresh storage; BSI.GetExistenceBitmap returns internal storage", "roaring And/Or/AndNot semantics"},
+		Explanation: "Structural necessary conditions of 'metadata filters return exactly the satisfying documents': freshness of every bitmap handed out or mutated in place below the metadata search (value-flow from New/Clone/CompareValue vs. index-owned storage); operator coverage and dispatch decided by finite-domain reachability over the 11 declared operators (categorical / numeric / local split, unsupported ⇒ error); the answer of every numeric operator followed as a set expression over the BSI comparisons and evaluated at every point of a signed finite model (document with / without the field, stored value and operands over -2..2; the library's EQ / LT / GT / RANGE are undetermined across signs, only LE / GE are exact), with operand provenance; universe of negations (Clone(allDocs) / Clone(existence)); Not as a fix-point-free involution; AND/OR connectives; Remove covers every container Add writes and keeps field kinds stable; numeric type sets and the rounded two-decimal conversion agree between Add and the operand side; key codec and the existence prefix match.",
+		NotDecided:  "the roaring library itself: its LE / GE comparisons on a 64-plane BSI are trusted (read, and confirmed against an oracle over random int64 values, DESIGN 11.13); field names containing ':'.",
+		Assumptions: []string{"roaring.New/BitmapOf/Clone/CompareValue return fresh storage; BSI.GetExistenceBitmap returns internal storage", "roaring And/Or/AndNot semantics", "roaring BitSliceIndexing v1.9.4 compareValue: LE and GE are exact over int64 on a 64-plane BSI; EQ, LT, GT and RANGE compare magnitudes when stored value and operand differ in sign"},
 	}, func(r *Run) {
 		ruleErrProp(r, "C04.ERRPROP", "metadata_index")
 		k, err := metaKindOf(r.W)
